@@ -110,7 +110,7 @@ def _shard(a):
 
 
 def run(ctx):
-    n = ctx.n(12000, 500000)
+    n = ctx.n(40000, 500000)
     per = max(1, n // (2 * core.NCPU))
     jobs = []
     seeds = core.shard_seeds(ctx.seed, 'C09', 2 * core.NCPU)
